@@ -351,16 +351,18 @@ pub fn random_programs(ctx: &Ctx, stream: u64, n: usize, stmts: usize, tag: &str
     cases
 }
 
-pub fn c02(ctx: &Ctx) -> PropResult {
-    let n = if ctx.quick() { 6_000 } else { 120_000 };
-    let cases = random_programs(ctx, 2, n, 6, "random-program");
-    let stats = run_cases(&ctx.driver, cases, &run_oracle_no_panic, &no_known, ctx.threads);
-    PropResult { stats, rule: "random structured programs".into(), exhaustive: false, notes: vec![] }
-}
-
 pub fn run_prop(ctx: &Ctx) -> Option<PropResult> {
     match ctx.prop.as_str() {
-        "C02" => Some(c02(ctx)),
+        "C01" => Some(crate::props2::c01(ctx)),
+        "C02" => Some(crate::props2::c02(ctx)),
+        "C03" => Some(crate::props2::c03(ctx)),
+        "C04" => Some(crate::props2::c04(ctx)),
+        "C05" => Some(crate::props2::c05(ctx)),
+        "C10" => Some(crate::props3::c10(ctx)),
+        "C14" => Some(crate::props3::c14(ctx)),
+        "C15" => Some(crate::props3::c15(ctx)),
+        "C16" => Some(crate::props3::c16(ctx)),
+        "C17" => Some(crate::props3::c17(ctx)),
         "C07" => Some(c07(ctx)),
         "C08" => Some(c08(ctx)),
         _ => None,
